@@ -30,6 +30,10 @@ def check(run):
     # the decoded test compares the hit with hit.original: `original` must mean "the covered slice of the parent" for every parent
     from .. import noderules
     noderules.check_original(run, "R1-fresh-recursive-scan")
+    # "with the remaining depth": the depth handed to the rescan is DEPTH - 1 whatever surrounds the hit (C07's linear-form rule);
+    # a depth that also counts the open contexts makes what is found inside a blob depend on what encloses it (seed u04)
+    from . import common as _common
+    _common.delegate(run, "C07", lambda rule, key: rule == "R2-decrement", floor=2)
     sn = fa.sn
     mod = sn.module
     N = fa.R.NODE
